@@ -190,6 +190,20 @@ def check_props(prop, timeout=600):
             'axioms': axioms, 'output': o[-4000:]}
 
 
+def coqchk(prop, timeout=1500):
+    """thorough tier: re-check Props/<prop>.vo and everything it depends on with the independent checker; collect the axiom summary"""
+    args = ['timeout', str(timeout), 'coqchk', '-o', '-silent']
+    for d, n in (('Model', 'O2o.Model'), ('Gen', 'O2o.Gen'), ('Lemmas', 'O2o.Lemmas'), ('Props', 'O2o.Props')):
+        args += ['-Q', os.path.join(COQ, d), n]
+    with Lock('coq'):
+        rc, o = run(args + ['O2o.Props.' + prop], cwd=COQ, timeout=timeout + 60)
+    m = re.search(r'\* Axioms:\s*(.*?)\n\s*\n', o, flags=re.S)
+    axioms = m.group(1).strip() if m else '?'
+    unsafe = re.findall(r'\* (?:Constants/Inductives relying on [^:]+|Inductives whose positivity is assumed):\s*(.*?)\n\s*\n', o, flags=re.S)
+    ok = rc == 0 and axioms == '<none>' and all(u.strip() == '<none>' for u in unsafe)
+    return {'ok': ok, 'rc': rc, 'axioms': axioms, 'output': o[-1500:] if not ok else ''}
+
+
 # ------------------------------------------------------------------ running cases
 def write_cases(path, cases):
     with open(path, 'w') as f:
